@@ -722,4 +722,38 @@ theorem read_segs_zeros (hB : B ≤ 65542) : ∀ (ss : List Seg) (off n z fuel :
         simp only [wholeChunks, hcn, if_false, recoverChunks]
         exact readAux_torn_chunk_zeros B crc hB f off n z acc c hfit hty (by omega) hdet
 
+/-! ### the strict reader -/
+
+/-- on ANY bytes: when the strict reader does not refuse, it delivers what the non-strict reader delivers -/
+theorem strictAux_some : ∀ (f off : Nat) (rest : Bytes) (acc : Option Record) (l : List Record),
+    strictAux B crc f off rest acc = some l → readAux B crc f off rest acc = l := by
+  intro f
+  induction f with
+  | zero => intro off rest acc l h; simp only [strictAux, Option.some.injEq] at h; simp [readAux, h]
+  | succ f ih =>
+    intro off rest acc l h
+    cases hp : parse crc (min (B - off) rest.length) rest with
+    | short =>
+      rw [readAux_short B crc f off rest acc hp]
+      simp only [strictAux, hp] at h
+      by_cases hle : rest.length ≤ B - off
+      · rw [if_pos hle] at h ⊢
+        cases hacc : acc.isSome with
+        | true => rw [hacc] at h; exact absurd h (by simp)
+        | false => rw [hacc] at h; simpa using h
+      · rw [if_neg hle] at h ⊢
+        exact ih _ _ _ _ h
+    | bad =>
+      simp only [strictAux, hp] at h
+      exact absurd h (by simp)
+    | ok ty p =>
+      rw [readAux_ok B crc f off rest acc ty p hp]
+      simp only [strictAux, hp] at h
+      cases hs : strictAux B crc f (adv B off (7 + p.length)) (rest.drop (7 + p.length)) (onChunk acc ty p).2 with
+      | none => rw [hs] at h; exact absurd h (by simp)
+      | some l' =>
+        rw [hs] at h
+        simp only [Option.map_some, Option.some.injEq] at h
+        rw [ih _ _ _ _ hs, h]
+
 end ZV.Journal
